@@ -44,4 +44,16 @@ var props = []propCfg{
 			"nil and empty results are the same slice value (compared by length and contents)",
 		},
 	},
+	{
+		ID: "C12", Pkg: "props/c12",
+		Tests: []testCfg{
+			{Name: "TestSlicePurity", Rapid: true, Quick: 3200, Thorough: 160000, ShardsQ: 16, ShardsT: 16, Steps: 40},
+		},
+		Rule:      "rapid state machine: a pool of live []int / []string values (literals with and without spare capacity, slice.New); each step applies one slice-package function (PushLast PushHead PopLast Tail Take Skip Append Concat Collect Map Mapi Filter Sort SortBy Distinct Zip, plus the non-slice-returning ones) to pool members chosen with a bias towards re-using the same source; the result joins the pool. After every step every pool value is compared with the deep snapshot taken when it was produced, and the new value with the list model. Non-trivial = a history in which a value with cap>len is extended at least twice or a shortened value (PopLast/Tail/Take/Skip result) is extended; distinct = hash of the operation history.",
+		Technique: "stateful property-based testing (rapid state machine) with a snapshot invariant over the history",
+		Assumptions: []string{
+			"slice values are observed through len and element reads only (what a Folang program can observe); hidden capacity is not a value",
+			"element types int and string stand for all element types (the functions are generic and never inspect elements)",
+		},
+	},
 }
